@@ -137,10 +137,11 @@ def logAll : List (List Nat) → List (List Nat) → List Step
 /-- state at the moment of a crash after `k` micro-steps -/
 def crash (k : Nat) (steps : List Step) : FS := runSteps {} (steps.take k)
 
-/-- the reader: split on newline, drop the unterminated tail (lines are returned without newline) -/
+/-- the reader: split on newline, drop the unterminated tail (lines are returned without newline);
+`cur` is the current line so far, last byte first -/
 def readLinesAux : List Nat → List Nat → List (List Nat)
   | [], _ => []
-  | c :: r, cur => if c = 10 then cur :: readLinesAux r [] else readLinesAux r (cur ++ [c])
+  | c :: r, cur => if c = 10 then cur.reverse :: readLinesAux r [] else readLinesAux r (c :: cur)
 
 def readLines (s : List Nat) : List (List Nat) := readLinesAux s []
 
